@@ -51,7 +51,8 @@ func (eng *Engine) initExterns() {
 	const csNote = "wrapper.ConcurrentSwissMap/csmap: each operation has sequential map semantics (per-shard lock); Range visits each key once"
 	E["wrapper.CreateConcurrentSwissMap"] = func(x *Exec, st *State, cc *ssa.CallCommon, fn *ssa.Function, args []Val, resT types.Type, k func(*State, Val)) {
 		tb(x, csNote)
-		k(st, st.newMap())
+		kt, vt := csmapKV(fn)
+		k(st, st.newMap(kt, vt))
 	}
 	E["wrapper.(*ConcurrentSwissMap).Load"] = func(x *Exec, st *State, cc *ssa.CallCommon, fn *ssa.Function, args []Val, resT types.Type, k func(*State, Val)) {
 		tb(x, csNote)
@@ -59,8 +60,8 @@ func (eng *Engine) initExterns() {
 		m := args[0].(Term)
 		x.implicitPanic(st, Eq(m, TInt(0)), "nil", "Load on nil ConcurrentSwissMap")
 		key := st.scalar(args[1], kt)
-		has := Sel(st.mapHas(m), key)
-		raw := Sel(st.mapVal(m, vt), key)
+		has := Sel(st.mapHas(m, kt, vt), key)
+		raw := Sel(st.mapVal(m, kt, vt), key)
 		st.assumeLoaded(raw, vt)
 		k(st, &TupleVal{[]Val{Ite(has, raw, zeroVal(vt).(Term)), has}})
 	}
@@ -69,22 +70,23 @@ func (eng *Engine) initExterns() {
 		kt, vt := csmapKV(fn)
 		m := args[0].(Term)
 		x.implicitPanic(st, Eq(m, TInt(0)), "nil", "Store on nil ConcurrentSwissMap")
-		st.mapStore(m, st.scalar(args[1], kt), st.scalar(args[2], vt), vt)
+		st.mapStore(m, st.scalar(args[1], kt), st.scalar(args[2], vt), kt, vt)
 		k(st, nil)
 	}
 	E["wrapper.(*ConcurrentSwissMap).Delete"] = func(x *Exec, st *State, cc *ssa.CallCommon, fn *ssa.Function, args []Val, resT types.Type, k func(*State, Val)) {
 		tb(x, csNote)
-		kt, _ := csmapKV(fn)
+		kt, vt := csmapKV(fn)
 		m := args[0].(Term)
 		x.implicitPanic(st, Eq(m, TInt(0)), "nil", "Delete on nil ConcurrentSwissMap")
-		st.mapDelete(m, st.scalar(args[1], kt))
+		st.mapDelete(m, st.scalar(args[1], kt), kt, vt)
 		k(st, nil)
 	}
 	E["wrapper.(*ConcurrentSwissMap).Count"] = func(x *Exec, st *State, cc *ssa.CallCommon, fn *ssa.Function, args []Val, resT types.Type, k func(*State, Val)) {
 		tb(x, csNote)
+		kt, vt := csmapKV(fn)
 		m := args[0].(Term)
 		x.implicitPanic(st, Eq(m, TInt(0)), "nil", "Count on nil ConcurrentSwissMap")
-		c := UF(SI, "card", st.mapHas(m))
+		c := UF(SI, "card", st.mapHas(m, kt, vt))
 		st.assume(Ge(c, TInt(0)))
 		k(st, c)
 	}
@@ -94,8 +96,8 @@ func (eng *Engine) initExterns() {
 		m := args[0].(Term)
 		x.implicitPanic(st, Eq(m, TInt(0)), "nil", "StoreIf on nil ConcurrentSwissMap")
 		key := st.scalar(args[1], kt)
-		has := Sel(st.mapHas(m), key)
-		raw := Sel(st.mapVal(m, vt), key)
+		has := Sel(st.mapHas(m, kt, vt), key)
+		raw := Sel(st.mapVal(m, kt, vt), key)
 		prev := Ite(has, raw, zeroVal(vt).(Term))
 		x.callValue(st, args[2], []Val{prev, has}, func(st2 *State, res Val) {
 			tv := res.(*TupleVal)
@@ -103,14 +105,10 @@ func (eng *Engine) initExterns() {
 			nv := st2.scalar(tv.V[0], vt)
 			switch set.S {
 			case "true":
-				st2.mapStore(m, key, nv, vt)
+				st2.mapStore(m, key, nv, kt, vt)
 			case "false":
 			default:
-				h := st2.comp("MH", ArrSort(SI, ArrSort(SI, SB)))
-				st2.setComp("MH", Sto(h, m, Sto(Sel(h, m), key, Or(set, Sel(Sel(h, m), key)))))
-				s := sortOf(vt)
-				vc := st2.comp("MV!"+s, ArrSort(SI, ArrSort(SI, s)))
-				st2.setComp("MV!"+s, Sto(vc, m, Sto(Sel(vc, m), key, Ite(set, nv, Sel(Sel(vc, m), key)))))
+				st2.mapStoreIf(m, key, nv, set, kt, vt)
 			}
 			k(st2, nil)
 		})
@@ -124,15 +122,11 @@ func (eng *Engine) initExterns() {
 	}
 	E["wrapper.(*ConcurrentSwissMap).ToMap"] = func(x *Exec, st *State, cc *ssa.CallCommon, fn *ssa.Function, args []Val, resT types.Type, k func(*State, Val)) {
 		tb(x, csNote)
-		_, vt := csmapKV(fn)
+		kt, vt := csmapKV(fn)
 		m := args[0].(Term)
 		x.implicitPanic(st, Eq(m, TInt(0)), "nil", "ToMap on nil ConcurrentSwissMap")
 		n := st.allocRef()
-		h := st.comp("MH", ArrSort(SI, ArrSort(SI, SB)))
-		st.setComp("MH", Sto(h, n, Sel(h, m)))
-		s := sortOf(vt)
-		vc := st.comp("MV!"+s, ArrSort(SI, ArrSort(SI, s)))
-		st.setComp("MV!"+s, Sto(vc, n, Sel(vc, m)))
+		st.mapCopy(n, m, kt, vt)
 		k(st, n)
 	}
 
@@ -508,7 +502,8 @@ func (x *Exec) builtin(st *State, fr *Frame, b *ssa.Builtin, cc *ssa.CallCommon,
 			st.assume(Imp(Eq(a, TInt(0)), Eq(l, TInt(0))))
 			return l
 		case *types.Map:
-			c := UF(SI, "card", st.mapHas(a))
+			mt := under(t).(*types.Map)
+			c := UF(SI, "card", st.mapHas(a, mt.Key(), mt.Elem()))
 			st.assume(Ge(c, TInt(0)))
 			return c
 		case *types.Basic:
@@ -529,7 +524,7 @@ func (x *Exec) builtin(st *State, fr *Frame, b *ssa.Builtin, cc *ssa.CallCommon,
 		return x.appendOp(st, cc, args)
 	case "delete":
 		mt := under(cc.Args[0].Type()).(*types.Map)
-		st.mapDelete(args[0].(Term), st.scalar(args[1], mt.Key()))
+		st.mapDelete(args[0].(Term), st.scalar(args[1], mt.Key()), mt.Key(), mt.Elem())
 		return nil
 	case "close":
 		ch := args[0].(Term)
